@@ -762,7 +762,58 @@ def case_views(kind, rng, ctx):
         check_family(ctx, rng, Fam(kind, arr=arr), arr, seg2, n_apply=1)
 
 
+def case_big_segments(rng, ctx):
+    """Arrays whose segment lengths / segment counts pass 16 bits: a residue (and chain) of more than 65536 atoms, or more
+    than 32768 / 65536 residues.  The reference is a NumPy recomputation from the segment lengths."""
+    mode = str(rng.choice(["giant_segment", "many_segments"]))
+    if mode == "giant_segment":
+        lens = np.array([int(rng.integers(1, 6)), int(rng.choice([65535, 65536, 65537, 70000])), int(rng.integers(1, 6))])
+    else:
+        lens = rng.integers(1, 3, size=int(rng.choice([32769, 40000, 65537, 70001])))
+    nres, n = len(lens), int(lens.sum())
+    starts = np.concatenate([[0], np.cumsum(lens)[:-1]])
+    seg_of = np.repeat(np.arange(nres), lens)
+    arr = struc.AtomArray(n)
+    arr.coord = np.zeros((n, 3), dtype=np.float32)
+    arr.chain_id[:] = "A"
+    arr.res_id = seg_of.astype(int)           # increasing: one chain
+    arr.res_name[:] = "GLY"
+    ctx.log("big_segments", {"mode": mode, "atoms": n, "residues": nres})
+    ctx.op("big_segments_" + mode)
+    ctx.mark_nontrivial()
+    ctx.state(("big_segments", mode, nres > 65536, n > 65536))
+    ctx.check(np.array_equal(struc.get_residue_starts(arr), starts), "starts_vs_recomputation",
+              "get_residue_starts on %d atoms / %d residues differs from the cumulative lengths" % (n, nres))
+    ctx.check(struc.get_residue_count(arr) == nres and struc.get_chain_count(arr) == 1, "count_names_vs_recomputation",
+              "get_residue_count / get_chain_count = %r / %r, expected %d / 1" % (struc.get_residue_count(arr), struc.get_chain_count(arr), nres))
+    idx = np.unique(np.concatenate([rng.integers(0, n, size=6), [0, n - 1, n // 2, min(n - 1, 65536), min(n - 1, 32768)]]))
+    pos = struc.get_residue_positions(arr, idx)
+    ctx.check(np.array_equal(np.asarray(pos, dtype=np.int64), seg_of[idx]), "positions_vs_recomputation",
+              "get_residue_positions(%s) = %s, expected %s" % (idx.tolist(), np.asarray(pos).tolist(), seg_of[idx].tolist()))
+    sf = struc.get_residue_starts_for(arr, idx)
+    ctx.check(np.array_equal(np.asarray(sf, dtype=np.int64), starts[seg_of[idx]]), "starts_for_vs_recomputation",
+              "get_residue_starts_for(%s) = %s, expected %s" % (idx.tolist(), np.asarray(sf).tolist(), starts[seg_of[idx]].tolist()))
+    mk = struc.get_residue_masks(arr, idx[:3])
+    ctx.check(mk.shape == (len(idx[:3]), n) and all(np.array_equal(mk[k_], seg_of == seg_of[i_]) for k_, i_ in enumerate(idx[:3])),
+              "masks_vs_recomputation", "get_residue_masks(%s) differs from the recomputed masks" % idx[:3].tolist())
+    vals = rng.integers(-1000, 1000, size=nres)
+    for name_, fn_, per, rep in (("spread_residue_wise", struc.spread_residue_wise, vals, np.repeat(vals, lens)),
+                                 ("spread_chain_wise", struc.spread_chain_wise, np.array([7]), np.full(n, 7))):
+        got = fn_(arr, per)
+        ctx.check(got.shape == rep.shape and np.array_equal(got, rep), "spread_vs_recomputation",
+                  "%s on %d atoms / %d residues: result of length %d differs from the repeated values (length %d)"
+                  % (name_, n, nres, len(got), len(rep)))
+    data = rng.integers(0, 5, size=n)
+    got = struc.apply_residue_wise(arr, data, np.sum)
+    ctx.check(np.array_equal(np.asarray(got, dtype=np.int64), np.add.reduceat(data, starts)), "apply_vs_recomputation",
+              "apply_residue_wise(np.sum) on %d atoms / %d residues differs from np.add.reduceat" % (n, nres))
+    got = struc.apply_chain_wise(arr, data, np.sum)
+    ctx.check(np.asarray(got).tolist() == [int(data.sum())], "apply_vs_recomputation", "apply_chain_wise(np.sum) = %s, expected [%d]" % (np.asarray(got).tolist(), int(data.sum())))
+
+
 def case_generic(rng, ctx):
+    if ctx.index % 400 == 399:
+        return case_big_segments(rng, ctx)
     n = gen_n(rng, ctx.tier)
     if n == 0:
         n = 1
